@@ -89,6 +89,8 @@ UNSUPPORTED = {
                     "LOCK TABLE t IN EXCLUSIVE MODE;", "REINDEX TABLE t;", "OPTIMIZE TABLE t;", "DROP INDEX ix;", "DROP SCHEMA s;",
                     "DROP DATABASE d;", "DROP SEQUENCE q;", "ALTER INDEX ix RENAME TO iy;", "ALTER SEQUENCE q RESTART WITH 1;",
                     "CREATE EXTENSION hstore;"],
+    # an unsupported statement behind a stray statement terminator on the same line
+    "stray_semicolon": ["; SELECT 1;", "; WITH x AS (SELECT 1) SELECT * FROM x;", "; COMMIT;", "; UPDATE t SET a = 1;", ";; SELECT 2;", ";SELECT 1;"],
     # malformed statements with unbalanced parentheses (they leave lp_open / last_par set in the lexer)
     "unparseable": ["CALL p((1, 2);", "SELECT f(a FROM t;", "SELECT a FROM t WHERE b IN (1, 2;",
                     "CREATE VIEW v AS SELECT (a + (b * 2) FROM t;", "CALL p(1, 2));", "SELECT ((a FROM t;"],
